@@ -10,6 +10,40 @@ claim('C20',
       'Trusted: the fake file system (append, rename-replaces, remove) and CrossHair/z3 themselves; sizes counted in characters '
       '(ASCII). Outside: more than 3 backups, multi-byte text, real disk errors, TimedRotatingFileStream/WatchedFileStream.')
 
-for _p in ['C01', 'C02', 'C03', 'C04', 'C05', 'C06', 'C07', 'C08', 'C09', 'C10', 'C11', 'C12', 'C13', 'C14', 'C15',
-           'C16', 'C17', 'C18', 'C19']:
+WORLD_NOTE = ('Trusted: the simulated world (vtlib/world: process table with signals / waitpid / re-parenting, virtual clock and '
+              'event-loop selector, fake zmq, FakePopen honouring the psutil-7 / subprocess contract) and CrossHair/z3. pid reuse, real '
+              'kernel timing and zmq failures are outside the claim. ')
+
+claim('C01',
+      'Bounded symbolic execution of the real Watcher/Arbiter/Controller code on a simulated kernel: (a) every history of K<=2 events '
+      'from an 11-event menu (exit, external kill, incr/decr/set with solver-chosen integer parameters, restart, three reload modes, '
+      'periodic check, time) with 4 placements each and one worker death injected at any kernel call; (b) an inductive step from an '
+      'arbitrary quiescent watcher state (<=3 table entries alive/zombie/gone, any target) through three real periodic checks. Oracle on '
+      'kernel ground truth: live = table = list reply = numprocesses, no zombie, fixpoint, post-restart generations. CrossHair exhausts each shard.',
+      WORLD_NOTE + 'Bounds: numprocesses <= 3, K <= 2 from boot (longer histories only through the inductive step), respawn=True, no max_age/on_demand.')
+claim('C02',
+      'Bounded symbolic execution of stop / restart / rm / quit (through the real Controller) with obedient, slow, too-slow and stubborn '
+      'workers, issued at quiescence or while a non-exclusive kill request is in flight, with one SIGKILL death injected at every kernel call '
+      'of the stop sequence, followed by K<=2 follow-up events (check, incr, decr, set numprocesses, set of reload-class options, kill, signal) '
+      'on the stopped watcher. Oracle: no live or zombie child, status stopped, numprocesses 0, spawn log unchanged, start still starts.',
+      WORLD_NOTE + 'Runs in which the loop is blocked are skipped here (C05).')
+claim('C03',
+      'Bounded symbolic execution of every termination cause (stop, restart, decr, reload, sequential reload, kill with and without signum / '
+      'graceful_timeout overrides, max_age expiry, and two overlapping terminations of the same worker) over a 0.05 s grid of graceful_timeout and '
+      'worker reaction delays (on, between, exactly at polling instants and the timeout; stubborn), three stop signals, with children and '
+      'grandchildren; oracle on the kernel signal log. Plus a z3 QF_LRA lemma generated from the AST of kill_process: for EVERY real '
+      'graceful_timeout <= 60 s (thorough 120 s) the float-accumulating wait loop escalates neither early nor more than one polling step late.',
+      WORLD_NOTE + 'Interpretation: "exited in time" is read at polling granularity (see DESIGN.md). before_signal vetoes are C14.',
+      technique=TECH + '; z3 QF_LRA lemma over the exact rational partial sums of the float wait loop')
+claim('C18',
+      'Signal designations: (i) CrossHair over every class-representative one-character neighbourhood of ~100 real designations and '
+      'non-signal names at all four entry points (to_signum, kill, signal, convert_option), exhausted; (ii) free short strings (bug hunting); '
+      '(iii) a z3 regular-language inclusion lemma generated from to_signum\'s AST and validated against the real function: accepted == valid '
+      'over ASCII strings of ANY length. Confinement of signal/kill requests to the named watcher\'s workers and their descendants: bounded '
+      'symbolic execution on the simulated kernel (c18_confinement).',
+      WORLD_NOTE + 'ASCII designations only; numeric strings denote whatever int() yields.',
+      technique=TECH + '; z3 regular-expression language inclusion (sequence theory) for designations')
+
+for _p in ['C04', 'C05', 'C06', 'C07', 'C08', 'C09', 'C10', 'C11', 'C12', 'C13', 'C14', 'C15',
+           'C16', 'C17', 'C19']:
     na(_p, WIP)
